@@ -47,7 +47,7 @@ type c01rCase struct {
 	Plan map[string]string `json:"plan"` // "aNN|<rank><stage>|<host>|<arg>" -> "4" | "5" | "drop"
 }
 
-var c01rStageRank = map[string]int{"session": 0, "mail": 1, "rcpt": 2, "data": 3, "status": 4}
+var c01rStageRank = map[string]int{"session": 0, "mail": 1, "rcpt": 2, "data": 3, "status": 4, "quit": 5}
 
 func c01rHostOf(kind, rcpt string) string {
 	if kind != "remote" {
@@ -185,6 +185,8 @@ func (w *c01rWorld) script(host string, lmtp bool) peers.Script {
 			switch w.action(host, stage, arg, stage == "session") {
 			case "4":
 				return peers.Err(451, [3]int{4, 3, 0}, "scripted 451 at "+stage)
+			case "421":
+				return peers.Err(421, [3]int{4, 4, 2}, "scripted 421 at "+stage)
 			case "5":
 				return peers.Err(550, [3]int{5, 1, 1}, "scripted 550 at "+stage)
 			}
@@ -425,7 +427,7 @@ func c01rRun(scratch string, c c01rCase) (res c01rResult) {
 		}
 		for _, a := range []string{get("rcpt", r), get("mail", ""), get("data", ""), statusA} {
 			switch a {
-			case "4":
+			case "4", "421":
 				return "temp"
 			case "5":
 				return "perm"
@@ -557,6 +559,22 @@ func c01rRun(scratch string, c c01rCase) (res c01rResult) {
 	return res
 }
 
+// c01rAllowed: which answers are scripted at which stage. A refused greeting is
+// modelled by 451 and by a dropped connection; 421 ("closing the channel") only at
+// MAIL / RCPT / DATA; at QUIT the connection can only be dropped (go-smtp answers
+// QUIT itself).
+func c01rAllowed(key, act string) bool {
+	switch {
+	case strings.Contains(key, "|0session|"):
+		return act == "4" || act == "drop"
+	case strings.Contains(key, "|5quit|"):
+		return act == "drop"
+	case strings.Contains(key, "|4status|"):
+		return act != "421"
+	}
+	return true
+}
+
 func c01rConfigs(thorough bool) []c01rCfg {
 	var cs []c01rCfg
 	sets := map[string][][]string{
@@ -599,9 +617,12 @@ func TestVerifC01Real(t *testing.T) {
 	if vx.Thorough() {
 		bound = 3
 	}
-	r.Rule("the real queue (retry delay 0, free-running) in front of the real target.remote (connection pool, one or two recipient domains), target.smtp and target.lmtp, next hop = scripted go-smtp/LMTP server; fault plans enumerated on demand: at every stage the run reached (greeting, MAIL, each RCPT, DATA, each LMTP status; per attempt and host) the server answers ok / 451 / 550 or drops the connection, up to B faults per plan; 1-3 recipients, max_tries 2-3, ordinary and null sender; oracle = ledger computed from what the server saw: every recipient ends delivered exactly once at the next hop or named by exactly one failure report (none for the null sender), recipients offered in each attempt = ledger-pending, no re-attempt after success or a 5xx reply, a 4xx reply is retried until max_tries, a lost connection is retried or reported but never counted as delivered. Non-trivial: distinct plans with at least one fault")
+	r.Rule("the real queue (retry delay 0, free-running) in front of the real target.remote (connection pool, one or two recipient domains), target.smtp and target.lmtp, next hop = scripted go-smtp/LMTP server; fault plans enumerated on demand: at every stage the run reached (greeting, MAIL, each RCPT, DATA, each LMTP status, QUIT; per attempt and host) the server answers ok / 451 / 421 / 550 or drops the connection (at QUIT: answers or drops), up to B faults per plan (B = 2 quick; 3 thorough, 6 for configurations with <= 2 recipients and max_tries 2); 1-3 recipients, max_tries 2-3, ordinary and null sender; oracle = ledger computed from what the server saw: every recipient ends delivered exactly once at the next hop or named by exactly one failure report (none for the null sender), recipients offered in each attempt = ledger-pending, no re-attempt after success or a 5xx reply, a 4xx reply is retried until max_tries, a lost connection is retried or reported but never counted as delivered. Non-trivial: distinct plans with at least one fault")
 	r.Assume("a recipient that was not delivered for a reason that carries no reply of its own (connection lost, greeting refused) may be retried or reported; for the null sender such plans are only judged through the recipients offered in later attempts")
 	r.Bound("faults_per_plan", bound)
+	if vx.Thorough() {
+		r.Bound("faults_per_plan_small_configurations", 6)
+	}
 	if rp := r.Replay(); rp != nil {
 		var c c01rCase
 		if json.Unmarshal(rp, &c) != nil {
@@ -627,7 +648,11 @@ func TestVerifC01Real(t *testing.T) {
 	var plans int64
 	idx := 0
 	for _, cfg := range cfgs {
-		acts := []string{"4", "5", "drop"}
+		bound := bound
+		if vx.Thorough() && len(cfg.Rcpts) <= 2 && cfg.MaxTries == 2 {
+			bound = 6
+		}
+		acts := []string{"4", "5", "drop", "421"}
 		var rec func(plan map[string]string, last string, top bool)
 		rec = func(plan map[string]string, last string, top bool) {
 			c := c01rCase{Cfg: cfg, Plan: plan}
@@ -670,8 +695,8 @@ func TestVerifC01Real(t *testing.T) {
 					continue
 				}
 				for _, a := range acts {
-					if strings.Contains(k, "|0session|") && a == "5" {
-						continue // a refused greeting is modelled by 451 and by a dropped connection
+					if !c01rAllowed(k, a) {
+						continue
 					}
 					if cfg.From == "" && (a == "drop" || strings.Contains(k, "|0session|")) {
 						continue // see assumption: no report to tell retry from failure
@@ -704,7 +729,7 @@ func TestVerifC01Real(t *testing.T) {
 		}
 		for _, k := range res0.demanded {
 			for _, a := range acts {
-				if strings.Contains(k, "|0session|") && a == "5" {
+				if !c01rAllowed(k, a) {
 					continue
 				}
 				if cfg.From == "" && (a == "drop" || strings.Contains(k, "|0session|")) {
